@@ -388,9 +388,13 @@ def run(tier, seed_):
         print(f"VIOLATION property=C18 replay={path}")
         log(f"  {byrid[rid]['what']} twinChanged={byrid[rid]['twinChanged']} res={byrid[rid]['res']} {cl}")
     # self-test: a mutator that slips through must be reported
-    st = json.loads(json.dumps(next(r for r in recs if r["kind"] == "probe" and r["twinChanged"] and r["res"] == "liberr")))
-    st["rid"], st["res"] = "selftest", "ok"
-    if "C18:NotRejected" not in common.validate_records([st], "TraceFrozen").get("selftest", []):
+    st = json.loads(json.dumps(next((r for r in recs if r["kind"] == "probe" and r["twinChanged"] and r["res"] == "liberr"), None)))
+    if st is None:
+        if not nv:
+            raise common.MachineryError("C18 surface self-test: no refused call to corrupt")
+    else:
+        st["rid"], st["res"] = "selftest", "ok"
+    if st is not None and not nv and "C18:NotRejected" not in common.validate_records([st], "TraceFrozen").get("selftest", []):
         raise common.MachineryError("C18 surface self-test did not fire")
     ev = json.load(open(f"{common.EVID}/C18.json"))
     cov = ev["coverage"]
